@@ -1,3 +1,180 @@
 import Driver.Common
-/-! Model driver for C07 — not built yet. -/
-def main (_args : List String) : IO Unit := pure ()
+import Logrange.Model.PersistCodec
+/-! Model driver for C07 (stored state survives restart / crash-shaped disks). Stateful; batch or `-i`.
+
+Byte strings are hex (`-` = empty). Requests (server must be "up" for the operations of a running server):
+
+* `reset`                                  empty base directory, nothing running
+* `start`                                  `recover` on the current disk →
+                                           `ok parts=<tagline,…|.> pipes=<name,…|.> cls=…` or `refuse:tindex cls=…` / `refuse:pipes cls=…`
+                                           `cls=collision:<0|1>,defslost:<0|1>,cut:<0|1>` are the class predicates of F33 / F07 / F05
+                                           evaluated on the memory of the server that ran before and on the disk
+* `part <tags> <src>` · `write <src> <cid>:<ts>,<ts>… …` · `dropchunks <src> <n>` · `droppart <src>`
+* `mkpipe <name> <tags> <flt>` · `rmpipe <name>` · `pipesave <name> <src>:<cid>:<idx> …`
+* `stop`                                   graceful shutdown (files written), `crash` — the process is gone, disk as it is
+* `cutpart <tags> <src> <k> <len>`         crash inside the tag-index save of creating that partition: first `k` steps, `len` ∈ 0|1|h|m|f
+* `cutstop <k> <len>` · `cutpipesave <name> <k> <len> <src>:<cid>:<idx> …`   likewise for the shutdown saves / one position save
+* `fsave <slot> <path>` · `frestore <slot> <path>` · `frm <path>` · `ftorn <path> <len>`   file surgery on an image;
+                                           paths: `tindex.dat`, `tindex.bak`, `cindex.dat`, `pipes.dat`, `pipeinfo:<name>`
+* `range <src> <lo> <hi>`                  → `vis=<ts,…|.> spec=<ts,…|.> stale=<0|1>`
+* `parts` · `pipes` (→ `name|tags|flt,…`) · `ppos <name>` (→ `src:cid:idx,…` sorted) · `fname <name>` (→ hex of `pipeFileName`)
+* `steps.part <tags> <src>`                → the step list of that save, e.g. `rename:tindex.dat:tindex.bak truncate:tindex.dat append:tindex.dat`
+-/
+open Go Driver Logrange.Persist
+
+structure DS where
+  srv : Srv
+  pre : Mem
+  up : Bool
+  cutIn : Bool
+  slots : List (String × Option Bytes)
+
+def K : Codecs := stdCodecs
+def emptyMem : Mem := ⟨[], [], []⟩
+def DS.init : DS := ⟨⟨emptyMem, Disk.fresh⟩, emptyMem, false, false, []⟩
+
+def insSorted (x : Bytes) : List Bytes → List Bytes
+  | [] => [x]
+  | y :: ys => if bytesLe x y then x :: y :: ys else y :: insSorted x ys
+def sortB (l : List Bytes) : List Bytes := l.foldr insSorted []
+
+def commaList (l : List String) : String := if l.isEmpty then "." else ",".intercalate l
+def hexSorted (l : List Bytes) : String := commaList ((sortB l).map hex)
+def intList (l : List Int) : String := commaList (l.map toString)
+def b2s (b : Bool) : String := if b then "1" else "0"
+
+def splitC (c : Char) (s : String) : List String := s.splitOn (String.singleton c)
+
+def parsePieces (toks : List String) : List (Nat × List Int) :=
+  toks.filterMap fun t =>
+    match splitC ':' t with
+    | [c, tss] => some (c.toNat!, (splitC ',' tss).filterMap (·.toInt?))
+    | _ => none
+
+def parsePosMap' (toks : List String) : PosMap :=
+  toks.filterMap fun t =>
+    match splitC ':' t with
+    | [s, c, i] => some (unhex s, ⟨c.toNat!, i.toNat!⟩)
+    | _ => none
+
+def pathOf (s : String) : Option Path :=
+  if s == "tindex.dat" then some .tindexDat
+  else if s == "tindex.bak" then some .tindexBak
+  else if s == "cindex.dat" then some .cindexDat
+  else if s == "pipes.dat" then some pipesDat
+  else match splitC ':' s with
+    | ["pipeinfo", n] => some (pipeInfoPath (unhex n))
+    | _ => none
+
+def lenOf (cls : String) (n : Nat) : Nat :=
+  if cls == "0" then 0 else if cls == "1" then min 1 n else if cls == "h" then n / 2
+  else if cls == "m" then n - 1 else n
+
+/-- the cut (k, class) on a step list: the class is resolved against the bytes of step k when it is an append -/
+def mkCut (steps : List Step) (k : Nat) (cls : String) : Cut :=
+  match steps[k]? with
+  | some (.append _ bs) => ⟨k, lenOf cls bs.length⟩
+  | _ => ⟨k, 0⟩
+
+def pathName : Path → String
+  | .tindexDat => "tindex.dat" | .tindexBak => "tindex.bak" | .tindexTmp => "tindex.tmp" | .cindexDat => "cindex.dat"
+  | .pipesDir f => "pipes/" ++ hex f
+
+def stepName : Step → String
+  | .rename a b => s!"rename:{pathName a}:{pathName b}"
+  | .truncate p => s!"truncate:{pathName p}"
+  | .append p _ => s!"append:{pathName p}"
+  | .remove p => s!"remove:{pathName p}"
+
+def clsOf (d : DS) : String :=
+  s!"cls=collision:{b2s (nameCollision d.pre.pipes)},defslost:{b2s (pipeDefsNotOnDisk K d.pre d.srv.disk.files)},cut:{b2s d.cutIn}"
+
+def withFiles (d : DS) (f : Files) : DS := { d with srv := { d.srv with disk := { d.srv.disk with files := f } } }
+
+def crashed (d : DS) (f : Files) (cutIn : Bool) : DS :=
+  { withFiles d f with pre := d.srv.mem, up := false, cutIn := cutIn }
+
+def dstep (d : DS) (toks : List String) : DS × String :=
+  let s := d.srv
+  let op (o : Op) : DS × String := if d.up then ({ d with srv := step K s o }, "ok") else (d, "down")
+  match toks with
+  | ["reset"] => (DS.init, "ok")
+  | ["start"] =>
+    if d.up then (d, "already-up") else
+    match recover K (fun _ => true) s.disk with
+    | .refusedTIndex => (d, s!"refuse:tindex {clsOf d}")
+    | .refusedPipes => (d, s!"refuse:pipes {clsOf d}")
+    | .started s' =>
+      ({ d with srv := s', up := true, cutIn := false },
+       s!"ok parts={hexSorted (s'.mem.tmap.map (·.1))} pipes={hexSorted (s'.mem.pipes.map (·.cfg.name))} {clsOf d}")
+  | ["part", tg, src] => op (.newPartition (unhex tg) (unhex src))
+  | "write" :: src :: pieces => op (.write (unhex src) (parsePieces pieces))
+  | ["dropchunks", src, n] => op (.dropChunks (unhex src) n.toNat!)
+  | ["droppart", src] => op (.dropPartition (unhex src))
+  | ["mkpipe", n, t, f] => op (.createPipe ⟨unhex n, unhex t, unhex f⟩)
+  | ["rmpipe", n] => op (.deletePipe (unhex n))
+  | "pipesave" :: n :: pm => op (.savePipeInfo (unhex n) (parsePosMap' pm))
+  | ["stop"] =>
+    if !d.up then (d, "down") else
+    ({ d with srv := shutdown K s, pre := s.mem, up := false, cutIn := false }, "ok")
+  | ["crash"] => if !d.up then (d, "down") else (crashed d s.disk.files false, "ok")
+  | ["cutpart", tg, src, k, cls] =>
+    if !d.up then (d, "down") else
+    let m := s.mem.tmap ++ [(unhex tg, unhex src)]
+    let steps := tindexSaveSteps K.tidx s.disk.files m
+    let c := mkCut steps k.toNat! cls
+    (crashed d (diskAt s.disk.files steps c) (cutInsideSave steps c), "ok")
+  | ["steps.part", tg, src] =>
+    let m := s.mem.tmap ++ [(unhex tg, unhex src)]
+    (d, " ".intercalate ((tindexSaveSteps K.tidx s.disk.files m).map stepName))
+  | ["cutstop", k, cls] =>
+    if !d.up then (d, "down") else
+    let steps := shutdownSteps K s.mem
+    let c := mkCut steps k.toNat! cls
+    (crashed d (diskAt s.disk.files steps c) false, "ok")
+  | "cutpipesave" :: n :: k :: cls :: pm =>
+    if !d.up then (d, "down") else
+    let steps := savePipeInfoSteps K.pinfo (unhex n) (parsePosMap' pm)
+    let c := mkCut steps k.toNat! cls
+    (crashed d (diskAt s.disk.files steps c) false, "ok")
+  | ["fsave", slot, p] =>
+    match pathOf p with
+    | some q => ({ d with slots := (slot, s.disk.files q) :: d.slots }, "ok")
+    | none => (d, "bad-path")
+  | ["frestore", slot, p] =>
+    match pathOf p, d.slots.find? (·.1 == slot) with
+    | some q, some (_, v) => (withFiles d (s.disk.files.set q v), "ok")
+    | _, _ => (d, "bad-path-or-slot")
+  | ["frm", p] =>
+    match pathOf p with
+    | some q => (withFiles d (s.disk.files.set q none), "ok")
+    | none => (d, "bad-path")
+  | ["ftorn", p, cls] =>
+    match pathOf p with
+    | some q =>
+      (match s.disk.files q with
+       | some bs => (withFiles d (s.disk.files.set q (some (bs.take (lenOf cls bs.length)))), "ok")
+       | none => (d, "missing"))
+    | none => (d, "bad-path")
+  | ["range", src, lo, hi] =>
+    match lo.toInt?, hi.toInt? with
+    | some l, some h =>
+      let cks := (alookup s.disk.db (unhex src)).getD []
+      let hs := hullView s.mem.cidx (unhex src) cks
+      (d, s!"vis={intList (rangeVisible hs cks l h)} spec={intList (rangeSpec cks l h)} stale={b2s (staleFor s (unhex src))}")
+    | _, _ => (d, "bad-op")
+  | ["parts"] => (d, hexSorted (s.mem.tmap.map (·.1)))
+  | ["pipes"] =>
+    let names := sortB (s.mem.pipes.map (·.cfg.name))
+    (d, commaList (names.filterMap fun n =>
+      (s.mem.pipes.find? (·.cfg.name == n)).map fun p => s!"{hex p.cfg.name}|{hex p.cfg.tags}|{hex p.cfg.flt}"))
+  | ["ppos", n] =>
+    match s.mem.pipes.find? (·.cfg.name == unhex n) with
+    | none => (d, "nopipe")
+    | some p =>
+      let srcs := sortB (p.poss.map (·.1))
+      (d, commaList (srcs.filterMap fun src => (alookup p.poss src).map fun q => s!"{hex src}:{q.cid}:{q.idx}"))
+  | ["fname", n] => (d, hex (pipeFileName (unhex n)))
+  | _ => (d, "bad-op")
+
+def main (args : List String) : IO Unit := Driver.run dstep DS.init args
